@@ -159,6 +159,23 @@ def packet_families(rng, tier, scale=1.0):
             if rng.random() < 0.7:
                 b[6:12] = struct.pack(">HHH", rng.randint(0, 2), rng.randint(0, 2), rng.randint(0, 2))
         out.append(("bytes", bytes(b)))
+    # opcode x section x class x TTL x type x (no data | true data): a record without data is refused for the types whose data is
+    # checked whatever the opcode (an RFC 2136 UPDATE carries such records; the parser's policy does not know about it)
+    qn = G.wire_name([b"example", b"com"])
+    nm1 = G.wire_name([b"n"])
+    true_data = {1: b"\x01\x02\x03\x04", 28: bytes(range(16)), 2: nm1, 5: nm1, 12: nm1, 39: nm1, 15: b"\x00\x05" + nm1,
+                 6: nm1 + nm1 + bytes(20), 16: b"\x01a"}
+    for opcode in (0, 1, 2, 4, 5, 6, 15):
+        for si in range(3):
+            for cls in (1, 254, 255):
+                for ttl in (0, 1):
+                    for t, data in true_data.items():
+                        for rd in (b"", data):
+                            flags = 0x8000 | (opcode << 11) | rng.choice([0, 0x0400, 0x0100])
+                            counts = [0, 0, 0]
+                            counts[si] = 1
+                            out.append(("opcode-matrix", struct.pack(">HHHHHH", rng.getrandbits(16), flags, 1, *counts) + qn +
+                                        struct.pack(">HH", 6 if opcode == 5 else 1, 1) + b"\xc0\x0c" + struct.pack(">HHIH", t, cls, ttl, len(rd)) + rd))
     # adversarial structure
     for h in (2, 3, 16, 17, 40):
         out.append(("chain", G.chain_packet(h)))
@@ -970,7 +987,8 @@ class C04(Prop):
                 "(C04_flags_word, C04_dnssec_bits); for every accepted packet the four question getters, with the cache empty and filled, "
                 "return the labels the declarative name policy reads at offset 12 (wire form, wire form without root, lower-cased dotted "
                 "text) with the following two 16-bit words as type and class, and that decoding is unique (C04_question_getters, "
-                "C04_question_decoding_unique); the EDNS summary the parser stores is the start of the OPT data, the number of options tiling "
+                "C04_question_decoding_unique), the same on the object gen::query synthesises: the labels of the text, the type and class given "
+                "(C04_query_getters); the EDNS summary the parser stores is the start of the OPT data, the number of options tiling "
                 "it, payload size, extended rcode, version and flags read from the OPT record, or nothing and 512 without OPT "
                 "(C04_edns_summary), and that record is the one OPT record of the declarative reading: payload = its class, extended "
                 "rcode/version/flags = its TTL bytes, count = options tiling its data (C04_summary_of_opt_record). id = the first 16-bit word, rcode = the low four bits of the flag word, opcode = its bits 11..14, for every buffer that has "
@@ -1050,6 +1068,19 @@ class C04(Prop):
                 ops += ["q0", "q1", "q2", "qt", "g"]
             cases.append(Case("h%d" % k, "\t".join(ops), {"family": "header-pointer-decompressed", "pkt": b.hex()}))
             k += 1
+        # a question reached through TWO pointers that both lie in the header (the only shape: ".. c0 03" with a flag word whose low
+        # byte is c0 and the qdcount 00 01 after it, so that offset 3 reads "c0 00" and offset 0 reads the label [01 xx] 00): name,
+        # type and class must be the same from every getter, whichever is called first (the cache is filled by the raw getters only)
+        k = len(cases)
+        for j, ch in enumerate(b"AaZz09-_~@"):
+            for pre in ([], [b"w"], [b"Www", b"x-1"]):
+                for qt in (1, 28, 255, 256, 41):
+                    for first in ("q2", "qt", "q0", "q1"):
+                        hdr = bytes([1, ch, 0x00, 0xC0, 0, 1, 0, 0, 0, 0, 0, 0])
+                        b = hdr + b"".join(bytes([len(l)]) + l for l in pre) + b"\xc0\x03" + struct.pack(">HH", qt, 1)
+                        order = [first] + [rng.choice(["g", "q0", "q1", "q2", "qt", "v", "ca"]) for _ in range(rng.randint(2, 5))] + ["q2", "qt", "q0", "q2", "qt", "q1"]
+                        cases.append(Case("dp%d" % k, "\t".join(["P," + hx(b)] + order), {"family": "header-double-pointer", "pkt": b.hex()}))
+                        k += 1
         step = 16 if tier == "quick" else 1
         q = [b"Example", b"COM"]
         k = len(cases)
@@ -1359,6 +1390,7 @@ class C13(Prop):
 
 class C14(Prop):
     id = "C14"
+    generated = ["Constants", "LabelBytes"]
     rule = ("Z: raw_name_from_str on ALL strings of length <= 5 over {a,B,-,_,.,1} (9331, exhaustive in both tiers), labels of 61..64 bytes, "
             "totals of 250..256 wire bytes, random LDH names and arbitrary bytes, each with and without a default zone; then, for accepted "
             "names, set_raw_name on a record followed by name() (read back). Expected labels are computed from the input text independently. "
@@ -1776,6 +1808,37 @@ class HistProp(Prop):
                 out.append(self.finish(k0 + len(out), "P," + hx(b), bld, "inflating"))
         return out
 
+    def self_pointer_family(self, rng, k0):
+        """Records whose data holds a name written as a pointer to the record's OWN owner name, itself a pointer (two hops, accepted):
+        an owner-name change, a TTL change or a deletion aimed at that record - the last of the packet or not - must leave the names
+        inside the data as they were (an in-place rewrite of the owner name without decompression drags them along)."""
+        out = []
+        qn = G.wire_name([b"www", b"example", b"com"])
+        own = 12 + len(qn) + 4
+        ptr = bytes([0xC0 | (own >> 8), own & 255])
+        datas = {5: b"\x03cdn" + ptr, 2: b"\x02ns" + ptr, 12: b"\x01p" + ptr, 15: b"\x00\x0a\x02mx" + ptr,
+                 6: b"\x02ns" + ptr + b"\x03adm" + ptr + bytes(range(20))}
+        tail_a = b"\xc0\x0c" + struct.pack(">HHIH", 1, 1, 7, 4) + b"\x0a\x00\x00\x01"
+        for t, rd in datas.items():
+            for si in range(3):
+                for tail in (b"", tail_a):
+                    counts = [0, 0, 0]
+                    counts[si] = 1
+                    if tail:
+                        counts[2] += 1
+                    b = struct.pack(">HHHHHH", rng.getrandbits(16), 0x8180, 1, *counts) + qn + struct.pack(">HH", 1, 1) + \
+                        b"\xc0\x0c" + struct.pack(">HHIH", t, 1, 300, len(rd)) + rd + tail
+                    a = H.decode_bytes(b)
+                    if a is None:
+                        continue
+                    for rep in range(3):
+                        bld = H.Builder(rng, H.decode_bytes(b), set())
+                        for _ in range(2):
+                            bld.walk_op(si=si, mode="mixed")
+                        bld.walk_op(si=si, mode="read", incl=True)
+                        out.append(self.finish(k0 + len(out), "P," + hx(b), bld, "self-pointer"))
+        return out
+
     def data_pointer_family(self, rng, k0):
         """Known-finding class data-pointer: TTL / address writes on records whose bytes a later name is read through."""
         out = []
@@ -2144,6 +2207,7 @@ W_GENERAL = {"header": 3, "insert": 4, "iq": 1, "rename": 2, "recompute": 1, "wa
 
 class C08(HistProp):
     id = "C08"
+    generated = ["Constants", "LabelBytes"]
     clauses = {"view"}
     rule = ("histories of 1-6 operations (header setters, insert_rr_from_string in any section, RR::new_question insert, rename, recompute, "
             "walks with set_rr_ttl / set_rr_ip / set_raw_name growing-shrinking-equal / delete / cursor uncompress / reads at every record "
@@ -2177,7 +2241,10 @@ class C08(HistProp):
                 "each applicable step succeeds or reports an error, never a Panic outcome, and leaves an object that is again its own fresh "
                 "parse (C08_step_with_rename_total, C08_histories_with_rename_total); the cursor that changed an owner name is the "
                 "cursor on the renamed record and advancing it yields the record that followed (C08_cursor_after_rename, "
-                "C08_next_after_rename). Operations that move the cursor (TTL / address / name setters, deletion, "
+                "C08_next_after_rename). Synthesised packets: what gen::query returns (class IN) is accepted by the parser, pointer-free, and its view "
+                "is that of the parse of its bytes, question = the labels of the text (C08_query_is_fresh_parse; needed the repair a97c4c2 of "
+                "/repo, found while proving it; the regenerated inventory LabelBytes ties the byte tests of the text conversion and of the "
+                "parser to the model). Operations that move the cursor (TTL / address / name setters, deletion, "
                 "cursor decompression), insertion of OPT records or of a question, and histories on synthesised objects are decided each run "
                 "by the correspondence plus the fresh-parse oracle on every step of every history.")
 
@@ -2260,6 +2327,7 @@ class C09(HistProp):
         cases += self.data_pointer_family(rng, len(cases))
         cases += self.special_qtype_family(rng, len(cases))
         cases += self.inflating_family(rng, len(cases), tier)
+        cases += self.self_pointer_family(rng, len(cases))
         return cases
 
 
@@ -2338,6 +2406,20 @@ class C10(HistProp):
                     bld.insert_op()
                 cases.append(self.finish(k, "P," + hx(b), bld, "size-limit"))
                 k += 1
+                # the question deleted, then a question that does not fit: the refused insertion must leave the counts as they were
+                # (the count of the question section is checked and bumped by the same helper: it must not run before the size test)
+                if a.q is not None:
+                    nm = b".".join([b"q" * 60] * 3 + [b"example", b"com"])
+                    if len(b) - (G.wire_len(a.q[0]) + 4) + (G.wire_len(T.expected_labels(nm, None)) + 4) > 8192:
+                        bld = H.Builder(rng, a, set())
+                        if rng.random() < 0.5:
+                            bld.getter_op("q0")
+                        bld.question_walk_op("X")
+                        bld.steps.append(H.Step("IQ,%s,%d" % (hx(nm), rng.choice([1, 28])), "insert-question-too-large", None, None, "any"))
+                        bld.walk_op(si=0, mode="read", incl=True)
+                        bld.second_question_op()
+                        cases.append(self.finish(k, "P," + hx(b), bld, "size-limit-question"))
+                        k += 1
         # records built with RR::new (any data length up to 65535) handed to insert_rr: 8 KB, and around the 16-bit limits of the
         # record's own length (name + 10 + data = 65535, 65536, 65537 ...)
         for rdlen in ([100, 8100, 8192, 30000, 65520, 65522, 65523, 65524, 65535] if tier == "quick" else
@@ -2597,6 +2679,20 @@ def plain_messages(rng, n, tier):
                     G.RR(q, 2, 1, 5, ("name", [l1] + q)), G.RR(q, 15, 1, 5, ("mx", 1, [l2] + q))]
             b, _ = G.encode(rng, G.Msg(1, 0x8180, q, 1, 1, an=recs), "none")
             out.append(("near-case-%02x" % c, b))
+    # a label-length byte of 32..63 is also a printable character: a name remembered as "labels + pointer" next to a sibling whose first
+    # label begins with the character equal to that length byte (Y of n bytes: Y.com, then a<chr(n+1)>.Y.com, then <chr(n)>Y.com as ONE
+    # label of n+1 bytes) - a byte-wise tail comparison that ignores label boundaries matches in the middle of a label
+    for nlen in (32, 33, 45, 47, 48, 49, 57, 62):
+        Y = bytes(97 + (i % 26) for i in range(nlen))
+        for tld in ([b"com"], [b"example", b"com"]):
+            for order in (0, 1, 2):
+                n1 = [Y] + tld
+                n2 = [b"a" + bytes([nlen + 1])] + n1
+                n3 = [bytes([nlen]) + Y] + tld if nlen + 1 <= 63 else [bytes([nlen]) + Y[:-1]] + tld
+                names = [[n1, n2, n3], [n1, n3, n2, n3], [n2, n1, n3, n2]][order]
+                recs = [A(list(nm), k) for k, nm in enumerate(names)] + [G.RR(q, 2, 1, 5, ("name", list(n3))), G.RR(q, 15, 1, 5, ("mx", 1, list(n2)))]
+                b, _ = G.encode(rng, G.Msg(1, 0x8180, q, 1, 1, an=recs), "none")
+                out.append(("length-byte-as-character-%d" % nlen, b))
     # names of equal wire length that differ in where the label boundaries are: "foo-bar.zone" / "foo.bar.zone" (a character where the
     # other has a length byte; also with the character EQUAL to that length byte, so that only the first length byte differs), in both
     # orders, as owners and inside name-bearing data: they are different names and must never share a pointer
@@ -2789,6 +2885,25 @@ class C07(Prop):
                 cases.append(Case("r%d" % k, "R,%s,%s,%s,%d" % (hx(b), hx(G.wire_name(tgt)), hx(G.wire_name(src)), 1 if sfx else 0),
                                   {"family": "rename", "pkt": b.hex(), "tgt": [x.hex() for x in tgt], "src": [x.hex() for x in src], "sfx": sfx}))
                 k += 1
+        # packets that already mention the TARGET zone before the first name that matches the source: the suffix dictionary then holds
+        # "L.target" when the first rewritten name "..L.source" is emitted, and that name ends in a pointer right after the kept labels
+        # (L of one byte, two bytes, several labels; further matches follow as owners and inside NS / MX / SOA data)
+        Ar = lambda nm, j=1: G.RR(nm, 1, 1, 60, ("raw", bytes([10, 0, 0, j & 255])))
+        for L in ([b"a"], [b"ab"], [b"w", b"a"], [b"7"]):
+            for src, tgt in (([b"example", b"com"], [b"zzz", b"org"]), ([b"example", b"com"], [b"example", b"net"]), ([b"com"], [b"net"])):
+                for layout in ("none", "greedy"):
+                    for qname in (L + tgt, [b"x"] + L + tgt, L + src):
+                        an = [Ar([b"y"] + L + tgt, 1), Ar([b"x"] + L + src, 2), Ar(L + src, 3), Ar([b"b"] + L + src, 4),
+                              G.RR(src, 2, 1, 5, ("name", [b"ns"] + L + src)), G.RR(L + src, 15, 1, 5, ("mx", 10, [b"mail"] + L + src)),
+                              G.RR(src, 6, 1, 5, ("soa", [b"ns"] + L + src, [b"adm"] + L + tgt, bytes(range(20))))]
+                        rng.shuffle(an) if rng.random() < 0.3 else None
+                        b, _ = G.encode(rng, G.Msg(rng.getrandbits(16), 0x8180, qname, 1, 1, an=an), layout)
+                        if decode_or_none(b) is None:
+                            continue
+                        for sfx in (True, False):
+                            cases.append(Case("r%d" % k, "R,%s,%s,%s,%d" % (hx(b), hx(G.wire_name(tgt)), hx(G.wire_name(src)), 1 if sfx else 0),
+                                              {"family": "rename", "pkt": b.hex(), "tgt": [x.hex() for x in tgt], "src": [x.hex() for x in src], "sfx": sfx}))
+                            k += 1
         # replace_raw on single names
         for i in range(300 if tier == "quick" else 5000):
             nm = G.rand_name(rng, None, 5)
